@@ -967,6 +967,46 @@ func checkDidDocumentValid(p *Prog, r *Report, kp func(string, string) string) {
 		})
 		r.Check(ok, kp("FIELDS", "DIDDocument.Valid#present:"+f), "verification methods and authentication are present", site, f+" != nil", f+" may be absent")
 	}
+	// the optional list fields: when present, contexts pass ValidateContexts; a controller list is empty or made of DIDs
+	{
+		FT := fa.AtInstrX(finalTrue)
+		for _, opt := range []struct {
+			field string
+			preds []string
+			what  string
+		}{
+			{"Contexts", []string{"ValidateContexts"}, "contexts, when present, start with the W3C context and are unique"},
+			{"Controller", []string{"EmptyDIDs", "ValidateDIDs"}, "a controller list is empty or names well-formed DIDs"},
+		} {
+			isFld := func(t *Term) bool { return t != nil && t.Op == "field" && t.Name == opt.field }
+			var alts []*Formula
+			for _, a := range FT.Atoms() {
+				t := a.Term
+				if t == nil {
+					continue
+				}
+				if t.Op == "eq" && len(t.Args) == 2 && (isFld(t.Args[0]) && t.Args[1].Name == "nil" || isFld(t.Args[1]) && t.Args[0].Name == "nil") {
+					alts = append(alts, a)
+					continue
+				}
+				ct := t
+				if ct.Op == "res" && len(ct.Args) == 1 {
+					ct = ct.Args[0]
+				}
+				if ct.Op == "call" {
+					for _, pn := range opt.preds {
+						if strings.HasSuffix(ct.Name, didTypesPkg+"."+pn) && len(ct.Args) >= 1 && ct.Args[len(ct.Args)-1].Op == "deref" && isFld(ct.Args[len(ct.Args)-1].Args[0]) {
+							alts = append(alts, a)
+						}
+					}
+				}
+			}
+			ok := len(alts) == len(opt.preds)+1 && Entails(FT, fOr(alts...))
+			r.Check(ok, kp("FIELDS", "DIDDocument.Valid#optional:"+opt.field), opt.what, site,
+				fmt.Sprintf("accepting ⇒ %s == nil ∨ %s(*%s)", opt.field, strings.Join(opt.preds, "(…) ∨ "), opt.field),
+				fmt.Sprintf("the accepting path does not require %s == nil ∨ %s(*%s): a document whose %s list is present and malformed is accepted", opt.field, strings.Join(opt.preds, " ∨ "), opt.field, strings.ToLower(opt.field)))
+		}
+	}
 	// loops over methods and services validate every element
 	for _, what := range []struct{ callee, name string }{{"VerificationMethod).Valid", "verification-methods"}, {"Service).Valid", "services"}} {
 		found := false
@@ -1005,15 +1045,20 @@ func checkDidDocumentValid(p *Prog, r *Report, kp func(string, string) string) {
 		co := NewOrigin(p, vc)
 		cfa := NewFacts(p, vc, co)
 		ctxC, _ := p.ConstVal(Rel(didTypesPkg), "ContextDIDV1")
-		okFirst := false
+		okFirst, nTrue := true, 0
 		for _, ret := range returnsOf(vc) {
-			if c, ok := asConst(ret.Results[0]); ok && c.Value != nil && c.Value.String() == "true" {
-				_, ok1 := cfa.DominatingFact(ret, true, func(t *Term) bool {
-					return t.Op == "eq" && (t.Args[0].Name == ctxC || t.Args[1].Name == ctxC)
-				})
-				okFirst = ok1 && ctxC == `"https://www.w3.org/ns/did/v1"`
+			c, isC := asConst(ret.Results[0])
+			if isC && c.Value != nil && c.Value.String() == "false" {
+				continue
 			}
+			// every accepting return (a constant true, or a computed value) lies behind contexts[0] == W3C
+			nTrue++
+			_, ok1 := cfa.DominatingFact(ret, true, func(t *Term) bool {
+				return t.Op == "eq" && (t.Args[0].Name == ctxC || t.Args[1].Name == ctxC)
+			})
+			okFirst = okFirst && ok1 && ctxC == `"https://www.w3.org/ns/did/v1"`
 		}
+		okFirst = okFirst && nTrue > 0
 		r.Check(okFirst, kp("CONST", "ValidateContexts#first=W3C-v1"), "the first context is https://www.w3.org/ns/did/v1", p.FnPos(vc), ctxC, "acceptance is not dominated by contexts[0] == "+ctxC)
 		dup := false
 		for _, b := range vc.Blocks {
